@@ -102,6 +102,12 @@ CHECKS = {
    text="All ordered selections of 1..3 distinct parameter shapes out of 15 as package functions (3k families), 1..2 (3 thorough) out of 13 as value-receiver methods, pointer-receiver methods and interface methods, x 94 argument lists (0-2 arguments over 9 atoms incl. nil, a generic function value, a spread and a tuple call): 325k calls. The builder must pick the lowest-indexed candidate go/types accepts (emitted callee name, Recorder.Call object), reject when none applies, emit the arguments unchanged (no residue), report the candidate's result type; the emitted package must type-check.",
    note="Trusted: go/types 1.23.5 call rules. Not covered: overloaded named types (_Cast) and overloaded operators, whose meaning is not plain Go (no go/types reference); stated in DESIGN.md.",
    design="§4 C06"),
+ "C07": dict(
+   category="exploration",
+   technique="bounded exhaustive enumeration of generic signatures (generated fixture packages) x explicit type-argument prefixes x argument lists x use modes on the real inference adapter; oracle = go/types verdict and Info.Instances on reference and emitted text",
+   text="216 one-type-parameter signatures (6 constraints x 1-2 parameter shapes over T, []T, *T, map[string]T, map[T]int, func(T) T, func() T, Box[T], chan T, [2]T, ...T; all 11x11 pairs thorough) and 21 hand-written 2-3 type-parameter signatures (core-type, pointer-method, un-inferable, reordered); x every explicit prefix of length 0..n+1 over a type alphabet x every argument list of the arity over 25 atoms (untyped constants, nil, 17 typed variables, two generic function values; spreads for variadics) x 4 modes (call, assign to func variable, reference, XGox_ leading type arguments) + generic type instantiation through Index and Package.Instantiate: 5.5M uses. Accept/reject must equal go/types; the type arguments recorded by go/types for the emitted callee must equal those of the reference text; builder-reported result type / instantiated signature must equal go/types'.",
+   note="Trusted: go/types 1.23.5 inference as reference. Rejected uses are re-built in a second package without them before printing (a rejected declaration may leave a half-built statement).",
+   design="§4 C07"),
 }
 
 NOT_APPLICABLE = {
